@@ -11,6 +11,7 @@ EXPLANATION = ("Props/C16.v: direct forward first, first good upstream in list o
                "re-establishment after loss, every attempt bounded; the run drives the real listener/upstream code on loopback.")
 TRUSTED = ["the handshake bound is exercised with HandshakeTimeout lowered to 1.5 s (it is a variable; 30 s by default)",
            "a DNS upstream whose retired session had identifier 0 gets BADCONN on reconnecting from the same address (see DESIGN.md); not part of this matrix"]
+SHARDS = 4      # harness processes side by side (cases are independent)
 RUN_TIMEOUT = 2400
 
 
@@ -39,14 +40,14 @@ def cases(tier, rng):
         if not thorough and len(ups) == 3 and rng.chance(3, 4):
             continue
         for must in (0, 1):
-            if not thorough and ups.count("silent") == 1 and must == 1 and rng.chance(1, 2):
-                continue
+            if not thorough and ups.count("silent") == 1 and (must == 1 or len(ups) == 3) and rng.chance(2, 3):
+                continue      # (every connection attempt that meets the silent upstream costs the handshake bound)
             cs.append(mk(must, "none", ups, ["conn", "conn"], "order"))
     for _ in range(120 if thorough else 12):
         ups = [rng.choice(BEH[:4]) for _ in range(4)]
         cs.append(mk(rng.below(2), "none", ups, ["conn", "conn", "conn"], "order4"))
     for ups in (["stalls", "oksecure"], ["stalls", "okinsecure"], ["refused", "stalls", "okinsecure"], ["stalls"]):
-        for must in (0, 1):
+        for must in ((0, 1) if thorough else (rng.below(2),)):
             cs.append(mk(must, "none", ups, ["conn", "conn"], "stalls"))
     # several local connections arriving together, at the start and right after a session loss
     for ups in (["oksecure"], ["refused", "okinsecure"], ["hserror", "oksecure"]):
